@@ -285,6 +285,10 @@ long c33_arr_sum(int (*p)[4], int n) { unsigned long s = 0; int i, j;
 long c33_big_sum(struct c33big *p, int n) { unsigned long s = 0; int i;
   for (i = 0; i < n; i++) s = s * 31 + (unsigned long)p[i].a + (unsigned long)p[i].pad[0] * 3UL + (unsigned long)p[i].pad[350] * 5UL + (unsigned long)p[i].pad[699] * 7UL + (unsigned long)p[i].z * 11UL;
   return (long)s; }
+struct c33pp c33_mk(int a, long c) { struct c33pp r; r.a = a; r.b = a + 1; r.c = c; return r; }
+union c33pu c33_mku(long l) { union c33pu r; memset(&r, 0, sizeof r); r.l = l; return r; }
+long c33_pp_val(struct c33pp v) { return (long)v.a * 1000000L + (long)v.b * 1000L + v.c; }
+long c33_pu_val(union c33pu v) { return v.l; }
 """
 PTR_CDEF = """
 struct c33pp { int a; int b; long c; };
@@ -293,6 +297,8 @@ struct c33big { int a; char pad[700]; int z; };
 void c33_dirty_stack(void);
 long c33_pp_sum(struct c33pp *, int); long c33_pu_sum(union c33pu *, int);
 long c33_arr_sum(int (*)[4], int); long c33_big_sum(struct c33big *, int);
+struct c33pp c33_mk(int, long); union c33pu c33_mku(long);
+long c33_pp_val(struct c33pp); long c33_pu_val(union c33pu);
 """
 
 
@@ -336,6 +342,8 @@ def generate(ctx):
     for i in range(n):
         m = c12.gen_module(ctx.rng, i, (8, 3, 8, 4, 5, 2), for_verify=True, prefix="_c33_")
         m["raw_c"], m["raw_cdef"], m["ptr_calls"] = PTR_C, PTR_CDEF, ptr_calls(ctx.rng)
+        # sequences of calls of functions returning a struct / union by value; all observations at the end
+        m["ret_seq"] = [ctx.rng.randint(1, 900) for _ in range(ctx.rng.choice([2, 3, 5]))]
         out.append(m)
     return out
 
@@ -404,6 +412,20 @@ def evaluate(ctx, cases):
                     ctx.violation(dict(c12.single(m), raw_c=m["raw_c"], raw_cdef=m["raw_cdef"], ptr_calls=[m["ptr_calls"][idx]]),
                                   "%s: %s%r: fields not named by the initialiser must be zero: C computed %r, expected %d"
                                   % (name, fname, tuple(args), got, want))
+        for name in c33_routes():
+            got = routes[name]["probe"].pop("retseq", None)
+            if got is None:
+                continue
+            ctx.count()
+            vals = m["ret_seq"]
+            want = {"ok": dict(structs=[[v, v + 1, v * 10] for v in vals], unions=[v * 7 for v in vals],
+                               shared=False, pass_first=vals[0] * 1000000 + (vals[0] + 1) * 1000 + vals[0] * 10,
+                               pass_first_union=vals[0] * 7, kept_after_more=[vals[0], vals[0] + 1, vals[0] * 10])}
+            ctx.nontrivial(("retseq", vals))
+            if got != want:
+                ctx.violation(dict(c12.single(m), raw_c=m["raw_c"], raw_cdef=m["raw_cdef"], ptr_calls=[], ret_seq=vals),
+                              "%s: results of struct/union-returning calls %r inspected after all calls: %r, expected %r"
+                              % (name, vals, got, want))
         for name in ("verify_cpy", "verify_gen"):
             pr = routes[name]["probe"]
             for section in sorted(ref):
